@@ -42,6 +42,7 @@ type Witness struct {
 	Outcome string            `json:"outcome"`
 	Notes   map[string]string `json:"notes,omitempty"`
 	Preempts []Preempt        `json:"preempts,omitempty"`
+	Order    []string         `json:"order,omitempty"`
 }
 
 type WVal struct {
@@ -94,6 +95,9 @@ func (ex *Exec) buildWitness(model map[string]ModelVal, outcome string) *Witness
 		w.Choices[c.Name] = c.V
 	}
 	w.Preempts = append([]Preempt(nil), ex.preempts...)
+	if len(ex.preempts) > 0 {
+		w.Order = append([]string(nil), ex.order...)
+	}
 	for _, j := range ex.jsonInputs {
 		var b bytes.Buffer
 		ex.renderJSON(j.N, model, &b)
@@ -198,6 +202,9 @@ func (e *Engine) runPath(sol *Solver, fn *ssa.Function, prefix []Decision) (res 
 		for _, rr := range ex.races {
 			ex.classifyRace(rr, res.Witness)
 		}
+	}
+	for _, v := range ex.violations {
+		v.Sched = ex.nondetEnv > 0
 	}
 	res.Violations = ex.violations
 	res.KnownSeen = ex.knownSeen
